@@ -28,6 +28,34 @@ theorem countPadding_translated_spec (l r : Int) (hl : 0 ≤ l) :
   have := cp_int l r hl
   omega
 
+/-- **Header layout.**  The plaintext written by `EncryptedMessageData.Encode` — interpreted from the
+`Put*` sequence regenerated from the source — is `salt:long session_id:long message_id:long seq_no:int
+message_data_length:int message_data`, each integer little-endian on its own width (a merged or
+reordered store changes the regenerated sequence and this equation stops holding). -/
+theorem encode_layout_spec (salt sid mid seq len : Nat) (body : Bytes) :
+    encodeData salt sid mid seq len body =
+      leN 8 salt ++ leN 8 sid ++ leN 8 mid ++ leN 4 seq ++ leN 4 len ++ body :=
+  encodeData_def salt sid mid seq len body
+
+/-- Both encoder paths agree: `EncodeWithoutCopy` (with `Message ≠ nil`, length placeholder patched
+afterwards) writes exactly what `Encode` writes for `MessageDataLen = len (encoded Message)`; hence
+`Cipher.Encrypt` behaves identically on both paths and every theorem below covers both. -/
+theorem encode_paths_agree (P : Prims) (side : Side) (ak keyId : Bytes) (salt sid mid seq : Nat)
+    (payload rnd : Bytes) :
+    encodeDataNoCopy salt sid mid seq payload = encodeData salt sid mid seq payload.length payload ∧
+    encryptMessage P side ak keyId salt sid mid seq payload rnd =
+      encrypt P side ak keyId salt sid mid seq payload rnd := by
+  refine ⟨encodeDataNoCopy_def .., ?_⟩
+  unfold encryptMessage encryptPlain encrypt encryptData
+  rw [encodeDataNoCopy_def]
+
+/-- The decoder reads back exactly that layout (regenerated reads, then the length test). -/
+theorem decode_layout_spec (salt sid mid seq len : Nat) (body : Bytes)
+    (h1 : salt < 2 ^ 64) (h2 : sid < 2 ^ 64) (h3 : mid < 2 ^ 64) (h4 : seq < 2 ^ 32) (h5 : len < 2 ^ 32)
+    (h6 : toInt32 len ≤ (body.length : Int)) :
+    decodeData (encodeData salt sid mid seq len body) = .ok ⟨salt, sid, mid, seq, len, body⟩ := by
+  rw [decodeData_encodeData _ _ _ _ _ _ h1 h2 h3 h4 h5, if_neg (by omega)]
+
 /-- Encryption succeeds whenever the random reader can deliver 268 bytes. -/
 theorem encrypt_ok_of_random (P : Prims) (side : Side) (ak keyId : Bytes) (salt sid mid seq : Nat)
     (payload rnd : Bytes) (h : 268 ≤ rnd.length) :
@@ -130,8 +158,9 @@ theorem layout_facts :
     Facts.C04.msgDecodeOrder = ["ConsumeN AuthKeyID[:]", "Int128"] ∧
     Facts.C04.encMsgKeySide = "c.encryptSide" ∧ Facts.C04.encKeysSide = "c.encryptSide" ∧
     Facts.C04.decKeysSide = "c.encryptSide.DecryptSide()" ∧ Facts.C04.decMsgKeySide = "side" ∧
-    Facts.C04.decSideIsFlipped = true ∧ Facts.C04.decryptSideFlips = true :=
-  ⟨rfl, rfl, rfl, rfl, rfl, rfl, rfl, rfl, rfl, rfl⟩
+    Facts.C04.decSideIsFlipped = true ∧ Facts.C04.decryptSideFlips = true ∧
+    Facts.C04.frameKeyIdLen = 8 ∧ Facts.C04.frameMsgKeyLen = 16 ∧ Facts.C04.dataLenChecked = true :=
+  ⟨rfl, rfl, rfl, rfl, rfl, rfl, rfl, rfl, rfl, rfl, rfl, rfl, rfl⟩
 
 /-- Non-vacuity: the hypotheses of `decrypt_encrypt` hold for a concrete message, and the statement
 is about a real ciphertext (toy primitives). -/
